@@ -69,7 +69,6 @@ def _witness(shape, needle):
 WITNESS = {
     "F-C01-optional-self-reference": _witness("optional-self-ref", "unsupported operand type(s) for |: 'str' and 'NoneType'"),
     "F-C01-field-shadows-type": _witness("shadowing-field-names", "unsupported operand type(s) for |"),
-    "F-C01-mock-client-duplicate-tag-arg": _witness("tag-spellings", "duplicate argument"),
 }
 
 MANIFEST = {
